@@ -323,6 +323,10 @@ def part_cross(ctx):
         ('whitelist+blacklist', lambda: M.FormulaGrader(whitelist=['sin'], blacklist=['cos'])),
         ('unknown blacklist entry', lambda: M.FormulaGrader(blacklist=['nosuchfunction'])),
         ('unknown whitelist entry', lambda: M.FormulaGrader(whitelist=['nosuchfunction'])),
+        ('whitelist [None] + blacklist', lambda: M.FormulaGrader(whitelist=[None], blacklist=['cos'])),
+        ('whitelist [None] + unknown blacklist entry', lambda: M.FormulaGrader(whitelist=[None], blacklist=['nosuchfunction'])),
+        ('unknown entry after a known one (blacklist)', lambda: M.FormulaGrader(blacklist=['sin', 'nosuchfunction'])),
+        ('unknown entry after a known one (whitelist)', lambda: M.FormulaGrader(whitelist=['sin', 'nosuchfunction'])),
         ('unordered list with several subgraders', lambda: M.ListGrader(answers=['a', 'b'], subgraders=[S(), S()], ordered=False)),
         ('subgrader count mismatch', lambda: M.ListGrader(answers=['a', 'b'], subgraders=[S(), S(), S()], ordered=True)),
         ('non-contiguous grouping', lambda: M.ListGrader(answers=[['a', 'b'], ['c', 'd']], subgraders=M.ListGrader(subgraders=S()), grouping=[1, 1, 3, 3])),
@@ -366,6 +370,8 @@ def part_cross(ctx):
         ('whitelist+blacklist', dict(whitelist=['sin'], blacklist=['cos'])),
         ('unknown blacklist entry', dict(blacklist=['nosuchfunction'])),
         ('unknown whitelist entry', dict(whitelist=['nosuchfunction'])),
+        ('whitelist [None] + blacklist', dict(whitelist=[None], blacklist=['cos'])),
+        ('whitelist [None] + unknown blacklist entry', dict(whitelist=[None], blacklist=['nosuchfunction'])),
         ('variable / constant collision', dict(variables=['x'], user_constants={'x': 1})),
         ('variable / constant collision (2)', dict(variables=['x', 'y'], user_constants={'c': 2, 'y': 3.5})),
         ('duplicate variables', dict(variables=['x', 'x'])),
